@@ -1,7 +1,7 @@
 """C19 — summary and progress output state the same numbers as the result they render."""
 from ..core import hx
 ID = "C19"
-PROPS = ["F1Verif.Props.C19", "F1Verif.Props.FactsC19", "F1Verif.Props.RefineC19R"]
+PROPS = ["F1Verif.Props.C19", "F1Verif.Props.FactsC19", "F1Verif.Props.RefineC19R", "F1Verif.Props.RefineC05R"]
 RULE = ("engine A on the real views: generated ResultData / ProgressData (zero iterations, zero elapsed, huge counts, "
         "verdict independent of the failed count, counts with and without dropped iterations, nil / plain / "
         "template-looking multi-line errors, log paths, with and without terminal colours) rendered with Render() and Log(); "
